@@ -80,6 +80,9 @@ MUST_FIRE = [
     ("encoder-dtype-result-type", ["C16"], ["R16.5"], P + "utils/_label_encoder.py",
      "self._dtype = np.append(self.classes, self.missing_label).dtype",
      "self._dtype = np.result_type(np.asarray(self.classes).dtype, type(self.missing_label))"),
+    ("gsx-reference-set-over-candidates", ["C08"], ["R8.6"], P + "pool/_greedy_sampling.py",
+     '        sample_indices = np.arange(len(X), dtype=int)\n        selected_indices = labeled_indices(y, missing_label=self.missing_label)\n\n        if mapping is None:\n            X_all = np.append(X, X_cand, axis=0)\n            candidate_indices = len(X) + np.arange(len(X_cand), dtype=int)\n        else:\n            X_all = X\n            candidate_indices = mapping\n',
+     '        selected_indices = labeled_indices(y, missing_label=self.missing_label)\n\n        if mapping is None:\n            X_all = np.append(X, X_cand, axis=0)\n            candidate_indices = len(X) + np.arange(len(X_cand), dtype=int)\n        else:\n            X_all = X\n            candidate_indices = mapping\n        sample_indices = np.arange(len(X_all), dtype=int)\n'),
     # ---- C03
     ("split-set-state-deleted", ["C03"], ["R3"], BZ,
      "        self.random_state_.set_state(random_state_state)\n", "        pass\n"),
